@@ -3,6 +3,7 @@ import Snel.Lemmas.Value
 import Snel.Lemmas.ReturnProjection
 import Snel.Model.F64Parse
 import Snel.Gen.C07
+import Snel.Model.MemRows
 /-!
 # C07 — stored values come back unchanged from every storage tier
 
@@ -418,6 +419,33 @@ example : let x : Ext := ⟨fun _ => none, fun _ => [], fun _ => .invalid, id⟩
   · show physOf (.optional .i64) ≠ .f64
     decide
   · exact ⟨by decide, by decide, by decide⟩
+
+/-! ## rows served from the memtable -/
+
+/-- **A memtable row depends on its own event only.** For any number of events in the scan
+(active and passive memtables, any batch boundaries) and any column list: the `i`-th emitted
+row is the `i`-th event that passed the filter, materialised by itself; cell `k` is that
+event's value for column `k`, and `Null` when the event does not carry the column — never a
+value of another row. (Model `Snel.MemRows`, tied to `MemTableSource` row by row by the
+`memrows` stream.) -/
+theorem C07_memtable_row_local (cols : List Bytes) (keep : MemRows.Ev → Bool)
+    (evs : List MemRows.Ev) (i k : Nat) :
+    (MemRows.memRows cols keep evs)[i]? = ((evs.filter keep)[i]?).map (MemRows.memRow cols)
+      ∧ ∀ e, (MemRows.memRow cols e)[k]?
+          = (cols[k]?).map fun c => (MemRows.fieldScalar e c).getD .null := by
+  constructor
+  · simp [MemRows.memRows]
+  · intro e; simp [MemRows.memRow]
+
+/-- An omitted optional key reads as null from the memtable tier, whatever the other rows hold. -/
+theorem C07_memtable_absent_is_null (cols : List Bytes) (e : MemRows.Ev) (k : Nat)
+    (hk : k < cols.length) (h : MemRows.fieldScalar e cols[k] = none) :
+    (MemRows.memRow cols e)[k]? = some .null := by
+  simp [MemRows.memRow, List.getElem?_eq_getElem hk, h]
+
+example : MemRows.memRows [[107], [111]] (fun _ => true)
+    [⟨[97], [101], 1, 1, [([107], .int 1), ([111], .int 7)]⟩, ⟨[97], [101], 2, 2, [([107], .int 2)]⟩]
+    = [[.int 1, .int 7], [.int 2, .null]] := by decide
 
 /-! ## RETURN -/
 
